@@ -16,9 +16,38 @@ TRUSTED = [
 CACHES = [("none", 0)] + [(k, s) for k in ("lru", "rr") for s in (1, 2, 3, 8, 1000)]
 
 
+def overlap(rnd, cfg):
+    """add a sibling to a glob rule: the same (or a more general) pattern with another match_metric_type, so that one
+    name is answered by different rules depending on the metric type"""
+    d, rules = cfg
+    globs = [r for r in rules if r["match_type"] != b"regex"]
+    if not globs:
+        return cfg
+    r = rnd.choice(globs)
+    fs = r["match"].split(b".")
+    if rnd.random() < 0.5:
+        k = rnd.randrange(len(fs))
+        if k or fs[k] == b"*":
+            fs[k] = b"*"
+    sib = GM.rule(b".".join(fs), rnd.choice([b"sib", b"sib_$1", b"s${2}"]), help=b"sib", labels=[(b"c1", b"$1")] if rnd.random() < 0.5 else [],
+                  mmt=rnd.choice([t for t in GG.TYPEF if t != r["mmt"]]))
+    pos = rnd.randint(0, len(rules))
+    return (d, rules[:pos] + [sib] + rules[pos:])
+
+
+def instance(rnd, pat):
+    return b".".join(rnd.choice([b"a", b"b", b"c", b"z"]) if f == b"*" else f for f in pat.split(b"."))
+
+
 def gen_ops(rnd, nops):
     cfgs = [GG.random_cfg(rnd, maxrules=6) for _ in range(3)]
-    keyspace = [GG.random_name(rnd) for _ in range(rnd.choice([2, 4, 12]))]
+    cfgs = [overlap(rnd, c) if rnd.random() < 0.6 else c for c in cfgs]
+    nkeys = rnd.choice([2, 4, 12])
+    keyspace = []
+    globs = [r["match"] for c in cfgs for r in c[1] if r["match_type"] != b"regex"]
+    for _ in range(nkeys):
+        # mostly names that some rule of some configuration matches, so that answers (and their types) differ
+        keyspace.append(instance(rnd, rnd.choice(globs)) if globs and rnd.random() < 0.7 else GG.random_name(rnd))
     ops = [GM.load_op(cfgs[0])]
     desc = ["load#0"]
     for _ in range(nops):
